@@ -1,7 +1,6 @@
 /* Copyright (c) 2021-2024 Barcelona Supercomputing Center (BSC)
  * SPDX-License-Identifier: MIT */
 
-#include <dirent.h>
 #include <fcntl.h>
 #include <inttypes.h>
 #include <limits.h>
@@ -333,31 +332,22 @@ move_thread_to_final(const char *src, const char *dst)
 static void
 move_thdir_to_final(const char *thdir, const char *thdir_final)
 {
-	DIR *dir;
+	/* Move the events first: the metadata carries the finished flag, so it
+	 * must only appear in the final directory once the stream is complete */
+	const char *files[] = { "stream.obs", "stream.json" };
 
-	if ((dir = opendir(thdir)) == NULL)
-		die("opendir %s failed:", thdir);
-
-	struct dirent *dirent;
-	const char *prefix = "stream.";
-	while (errno = 0, (dirent = readdir(dir)) != NULL) {
-		/* It should only contain stream.* directories, skip others */
-		if (strncmp(dirent->d_name, prefix, strlen(prefix)) != 0)
-			continue;
-
+	for (int i = 0; i < 2; i++) {
 		char thread[PATH_MAX];
-		if (snprintf(thread, PATH_MAX, "%s/%s", thdir,
-				    dirent->d_name)
+		if (snprintf(thread, PATH_MAX, "%s/%s", thdir, files[i])
 				>= PATH_MAX) {
-			die("path too large: %s/%s", thdir, dirent->d_name);
+			die("path too large: %s/%s", thdir, files[i]);
 		}
 
 		char thread_final[PATH_MAX];
 		if (snprintf(thread_final, PATH_MAX, "%s/%s", thdir_final,
-				    dirent->d_name)
+				    files[i])
 				>= PATH_MAX) {
-			die("path too large: %s/%s", thdir_final,
-					dirent->d_name);
+			die("path too large: %s/%s", thdir_final, files[i]);
 		}
 
 		/* The stream only exists in the temporal directory, so
@@ -365,11 +355,6 @@ move_thdir_to_final(const char *thdir, const char *thdir_final)
 		if (move_thread_to_final(thread, thread_final) != 0)
 			die("cannot move %s to %s", thread, thread_final);
 	}
-
-	if (errno != 0)
-		die("readdir %s failed:", thdir);
-
-	closedir(dir);
 }
 
 static void
